@@ -329,6 +329,14 @@ Check handed_back_safe_after :
     In t (live st') -> tracked t -> a < tv t.
 Print Assumptions handed_back_safe_after.
 
+(* with the default threshold (LazyFreeList::new) the loop is the 32-item prefix scan of the first theorems *)
+Theorem process_safe_default_is_take_safe :
+  forall m l, process_safe BULK_FREE_N m l = take_safe BULK_FREE_NUM m l.
+Proof. exact process_safe_default_proof. Qed.
+Check process_safe_default_is_take_safe :
+  forall m l, process_safe BULK_FREE_N m l = take_safe BULK_FREE_NUM m l.
+Print Assumptions process_safe_default_is_take_safe.
+
 (* ---- refinement to the abstract specification (ModelSpec.v, ProofsSpec.v, ProofsRefine.v) ---- *)
 (* the abstract specification (ModelSpec.v: multiset of live reader versions, multiset of live writer versions, threshold;
    steps acquire / release / advance) keeps: at most one writer in OneWriteMultiRead, threshold <= every live version *)
